@@ -57,6 +57,9 @@ def parse_tlc_stats(text):
     errs = [l for l in text.splitlines() if l.startswith("Error:")]
     if errs:
         st["error"] = "\n".join(errs[:5])
+    m = re.search(r"The number of states generated: (\d+)", text)
+    if m:
+        st["sim_states"] = int(m.group(1))
     m = re.search(r"Invariant (\w+) is violated", text)
     if m:
         st["invariant_violated"] = m.group(1)
@@ -124,7 +127,7 @@ class Pool:
 
 
 def run_tlc_export(name, module, cfgpath, outdir, tier, asan_stride, tlc_workers=None, timeout=3000, max_scripts=None, simulate=None, stride=1,
-                   exes=None):
+                   exes=None, depth=40):
     """Run TLC on module/cfg, stream every exported behaviour into plain (all) and
     sanitizer (every asan_stride-th) driver pools built from the working tree."""
     exe_plain, exe_asan = exes if exes else (vlib.build_driver("plain"), vlib.build_driver("asan"))
@@ -137,7 +140,7 @@ def run_tlc_export(name, module, cfgpath, outdir, tier, asan_stride, tlc_workers
     cmd = ["java", "-XX:+UseParallelGC", "-Xmx12g", "-cp", vlib.TLA_CP, "tlc2.TLC", "-workers", str(tlc_workers or 8),
            "-metadir", meta, "-config", cfgpath, "-fp", str(SEED % 120)]
     if simulate:
-        cmd += ["-simulate", simulate, "-seed", str(SEED)]
+        cmd += ["-simulate", simulate, "-depth", str(depth), "-seed", str(SEED)]
     cmd += [os.path.join(SPEC, module + ".tla")]
     t0 = time.time()
     tlc = subprocess.Popen(cmd, stdout=subprocess.PIPE, stderr=subprocess.STDOUT, cwd=SPEC, bufsize=1 << 20)
@@ -389,6 +392,32 @@ def known_match(prop, div, known):
     return None
 
 
+def merge_results(a, b):
+    """Combine the results of two TLC runs of one family (exhaustive bounded run + random simulation beyond the bounds)."""
+    for k in ("scripts", "replayed", "ok", "asan_replayed"):
+        a[k] += b[k]
+    a["bad"] += b["bad"]
+    a["samples"] += b["samples"][:1]
+    a.setdefault("simulation", []).append({"module": b.get("module"), "behaviours_exported": b["scripts"], "states_checked": b["tlc"].get("sim_states", 0)})
+    return a
+
+
+def sim_pass(res, name, module, consts, invariants, outdir, tier, num, depth, stride=20, asan_stride=16):
+    """Random behaviours of the same model with larger constants (TLC -simulate, seeded): unlike the exhaustive run, whose
+    VIEW keeps ONE history per model state, every random walk is a different history - this is what exposes state the code
+    keeps but the model (rightly) does not, e.g. something a failed or earlier call left behind."""
+    sdir = os.path.join(outdir, "sim")
+    os.makedirs(sdir, exist_ok=True)
+    cfg = os.path.join(sdir, module + "_sim.cfg")
+    write_cfg(cfg, "Spec", consts, invariants, view=None, export_stride=stride)
+    # (in simulation mode TLC evaluates the export constraint on EVERY candidate successor of each step, so the sample is
+    #  the random walks plus their one-step neighbourhoods; ExportStride thins it, max_scripts bounds it)
+    r = run_tlc_export(name + "_sim", module, cfg, sdir, tier, asan_stride=asan_stride, tlc_workers=4,
+                       simulate="num=%d" % num, depth=depth, max_scripts=40000 if tier == "quick" else 2000000)
+    r["module"] = module
+    return merge_results(res, r)
+
+
 # --------------------------------------------------------------------------------------
 # families
 # --------------------------------------------------------------------------------------
@@ -399,7 +428,9 @@ def fam_stop(tier, outdir):
         consts.update({"MaxTime": 6, "MaxCalls": 4, "Timeouts": "{0, 2, 3}", "MaxStops": 1, "ThirdActs": '"All"'})
     cfg = os.path.join(outdir, "MC_Stop.cfg")
     write_cfg(cfg, "Spec", consts, ["TypeOK", "LifeChild", "WaitTruthful", "NoSignalAfterReap"], export_stride=1)
-    return run_tlc_export("stop", "MC_Stop", cfg, outdir, tier, asan_stride=16 if tier == "quick" else 4)
+    res = run_tlc_export("stop", "MC_Stop", cfg, outdir, tier, asan_stride=16 if tier == "quick" else 4)
+    sc = dict(consts); sc.update({"MaxTime": 8, "MaxCalls": 8, "MaxStops": 5, "ThirdActs": '"All"', "Timeouts": "{0, 1, 3}"})
+    return sim_pass(res, "stop", "MC_Stop", sc, ["TypeOK", "LifeChild"], outdir, tier, 400 if tier == "quick" else 20000, 60, stride=400)
 
 
 def fam_life(tier, outdir):
@@ -409,7 +440,9 @@ def fam_life(tier, outdir):
         consts.update({"MaxCalls": 6, "Depth": '"full"', "MaxTime": 2})
     cfg = os.path.join(outdir, "MC_Life.cfg")
     write_cfg(cfg, "Spec", consts, ["TypeOK", "LifeChild", "Conservation"], props=["LifeOrder"], export_stride=2 if tier == "quick" else 1)
-    return run_tlc_export("life", "MC_Life", cfg, outdir, tier, asan_stride=4 if tier == "quick" else 16)
+    res = run_tlc_export("life", "MC_Life", cfg, outdir, tier, asan_stride=4 if tier == "quick" else 16)
+    sc = dict(consts); sc.update({"MaxTime": 4, "MaxCalls": 14, "MaxOut": 8, "Depth": '"full"'})
+    return sim_pass(res, "life", "MC_Life", sc, ["TypeOK", "LifeChild", "Conservation"], outdir, tier, 500 if tier == "quick" else 30000, 80, stride=20, asan_stride=4)
 
 
 def fam_restart(tier, outdir):
@@ -437,8 +470,10 @@ def fam_poll(tier, outdir):
         consts.update({"Timeouts": "{0, 1, 3}", "Masks": "{2, 10, 15, 0, 31}", "MaxSrc": 3, "MaxPolls": 2})
     cfg = os.path.join(outdir, "MC_Poll.cfg")
     write_cfg(cfg, "Spec", consts, ["TypeOK", "LifeChild", "PollBounded"], export_stride=7 if tier == "quick" else 1)
-    return run_tlc_export("poll", "MC_Poll", cfg, outdir, tier, asan_stride=16 if tier == "quick" else 32, tlc_workers=10,
-                          stride=1)
+    res = run_tlc_export("poll", "MC_Poll", cfg, outdir, tier, asan_stride=16 if tier == "quick" else 32, tlc_workers=10,
+                         stride=1)
+    sc = dict(consts); sc.update({"MaxTime": 6, "MaxCalls": 12, "MaxPolls": 6, "MaxOut": 4, "Timeouts": "{0, 1, 3}", "Masks": "{2, 10, 15, 0, 31}", "MaxSrc": 3})
+    return sim_pass(res, "poll", "MC_Poll", sc, ["TypeOK", "LifeChild", "PollBounded"], outdir, tier, 300 if tier == "quick" else 20000, 70, stride=100)
 
 
 def fam_stream(tier, outdir):
@@ -449,8 +484,10 @@ def fam_stream(tier, outdir):
         consts.update({"MaxCalls": 6, "MaxOut": 3})
     cfg = os.path.join(outdir, "MC_Stream.cfg")
     write_cfg(cfg, "Spec", consts, ["TypeOK", "LifeChild", "Conservation"], export_stride=5 if tier == "quick" else 1)
-    return run_tlc_export("stream", "MC_Stream", cfg, outdir, tier, asan_stride=16 if tier == "quick" else 8, tlc_workers=10,
-                          stride=1)
+    res = run_tlc_export("stream", "MC_Stream", cfg, outdir, tier, asan_stride=16 if tier == "quick" else 8, tlc_workers=10,
+                         stride=1)
+    sc = dict(consts); sc.update({"MaxTime": 1, "MaxCalls": 14, "MaxOut": 10})
+    return sim_pass(res, "stream", "MC_Stream", sc, ["TypeOK", "LifeChild", "Conservation"], outdir, tier, 400 if tier == "quick" else 30000, 80, stride=20)
 
 
 def fam_drain(tier, outdir):
